@@ -1,3 +1,7 @@
 import VfsModel.Basic
 import VfsModel.Path
+import VfsModel.Fs
+import VfsModel.Handle
+import VfsModel.Leaf
 import VfsModel.Proofs.PathLemmas
+import VfsModel.Props.C06
